@@ -28,7 +28,7 @@ from engine.bits import BV, TOP, Codec, compose, run_codec
 from engine.fold import Folder
 from engine.model import AnalysisError, Program, dotted, walk_no_nested
 from engine.pyx import PyxFile, pyx_body_to_ast
-from engine.wire import Config, Extractor, atoms, flatten, simplify, value_count
+from engine.wire import Config, Extractor, atoms, expand, flatten, simplify, value_count
 
 LEVEL = 'other'
 CH = 'RGBA'
@@ -90,9 +90,21 @@ def run(ctx: Any, prog: Program) -> None:
 
     rd, sv = vm['read'], vm['save']
     # ---- F1 --------------------------------------------------------------------------------------------------
+    # the locals that carry the minor version and the object under construction, found by what they are assigned from
+    def _second_of_pair(fn: ast.AST, pred: Any) -> Optional[str]:
+        for n in walk_no_nested(fn):
+            if isinstance(n, ast.Assign) and isinstance(n.targets[0], ast.Tuple) and len(n.targets[0].elts) == 2 and all(isinstance(e, ast.Name) for e in n.targets[0].elts) and pred(n.value):
+                return n.targets[0].elts[1].id
+        return None
+    vminor_r = _second_of_pair(rd, lambda v: isinstance(v, ast.Call) and dotted(v.func) == 'struct.unpack' and v.args and isinstance(v.args[0], ast.Constant) and expand(str(v.args[0].value)) == 'II')
+    vminor_w = _second_of_pair(sv, lambda v: dotted(v) in ('version', 'self.version'))
+    robjs = [n.targets[0].id for n in walk_no_nested(rd) if isinstance(n, ast.Assign) and isinstance(n.targets[0], ast.Name) and isinstance(n.value, ast.Call) and dotted(n.value.func) in ('cls.__new__', 'cls')]
+    if vminor_r is None or vminor_w is None or len(robjs) != 1:
+        raise AnalysisError('VTF.read/save: the minor-version locals or the object under construction were not found')
+    robj = robjs[0]
     for minor in (2, 3, 4, 5):
-        ri = Extractor(vtf, fold, Config({'version_minor': minor}, None), 'VTF', {}).extract(rd)
-        wi = Extractor(vtf, fold, Config({'version_minor': minor}, None), 'VTF', {}).extract(sv)
+        ri = Extractor(vtf, fold, Config({vminor_r: minor}, None), 'VTF', {}).extract(rd)
+        wi = Extractor(vtf, fold, Config({vminor_w: minor}, None), 'VTF', {}).extract(sv)
         rs, ws = norm_repeat(simplify(flatten(ri))), norm_repeat(simplify(flatten(wi)))
         if minor < 3:
             ws = ws.rstrip('x')       # 7.2 pads the header to 80 bytes; the reader seeks by header_size
@@ -123,7 +135,7 @@ def run(ctx: Any, prog: Program) -> None:
             srcs = {x.id for x in ast.walk(n.value) if isinstance(x, ast.Name)}
             for t in n.targets:
                 for el in ([t] if not isinstance(t, ast.Tuple) else t.elts):
-                    if isinstance(el, ast.Attribute) and dotted(el.value) == 'vtf':
+                    if isinstance(el, ast.Attribute) and dotted(el.value) == robj:
                         for s in srcs:
                             reach.setdefault(s, set()).add(el.attr)
     if len(rnames) == len(wargs):
@@ -131,12 +143,16 @@ def run(ctx: Any, prog: Program) -> None:
             wattrs = {x.attr for x in ast.walk(wa) if isinstance(x, ast.Attribute) and dotted(x.value) == 'self'} if wa is not None else set()
             rattrs = reach.get(rn or '', set())
             if not wattrs and isinstance(wa, ast.Constant):
-                ctx.check('C15.F1', rn == 'header_size', vtf, wa, f'slot {i}: a constant is packed where read() takes `{rn}`', func='VTF.save', text=f'header slot {i} placeholder')
+                ctx.check('C15.F1', not rattrs, vtf, wa, f'slot {i}: a constant is packed where read() takes `{rn}`', func='VTF.save', text=f'header slot {i} placeholder')
                 continue
             ctx.check('C15.F1', bool(wattrs & rattrs), vtf, wa or hw[0], f'header slot {i}: read() stores it into {sorted(rattrs)} (via `{rn}`) but save() packs `{U(wa)[:50]}`', func='VTF.save',
                       text=f'header slot {i} {rn}')
     # resource count = entries written
-    rc = [n for n in walk_no_nested(sv) if isinstance(n, ast.Assign) and dotted(n.targets[0]) == 'res_count']
+    # the count is whatever save() packs into the `<3xI8x` resource header
+    cnt_packs = [c for c in walk_no_nested(sv) if isinstance(c, ast.Call) and dotted(c.func) == 'struct.pack' and len(c.args) == 2 and isinstance(c.args[0], ast.Constant) and expand(str(c.args[0].value)) == expand('<3xI8x')
+                 and isinstance(c.args[1], ast.Name)]
+    res_count_var = cnt_packs[0].args[1].id if len(cnt_packs) == 1 else 'res_count'
+    rc = [n for n in walk_no_nested(sv) if isinstance(n, ast.Assign) and dotted(n.targets[0]) == res_count_var]
     if len(rc) != 1:
         raise AnalysisError('save(): res_count not found')
     base = U(rc[0].value)
@@ -144,7 +160,7 @@ def run(ctx: Any, prog: Program) -> None:
     if not m:
         raise AnalysisError(f'save(): res_count idiom `{base}` not recognised')
     fixed = int(m.group(1))
-    incs = [n for n in walk_no_nested(sv) if isinstance(n, ast.If) and any(isinstance(s, ast.AugAssign) and dotted(s.target) == 'res_count' for s in n.body)]
+    incs = [n for n in walk_no_nested(sv) if isinstance(n, ast.If) and any(isinstance(s, ast.AugAssign) and dotted(s.target) == res_count_var for s in n.body)]
     inc_guards = sorted(U(n.test) for n in incs)
     # entries: struct.pack('<3sB..') calls outside the resources loop
     ent_uncond, ent_guards = 0, []
@@ -158,7 +174,7 @@ def run(ctx: Any, prog: Program) -> None:
                 q = parents.get(p)
                 if isinstance(q, ast.For):
                     in_loop = True
-                if isinstance(q, ast.If) and 'version_minor' not in U(q.test) and p in q.body:
+                if isinstance(q, ast.If) and vminor_w not in {x.id for x in ast.walk(q.test) if isinstance(x, ast.Name)} and p in q.body:
                     guard = U(q.test)
                 p = q
             if in_loop:
@@ -173,10 +189,31 @@ def run(ctx: Any, prog: Program) -> None:
     def nest(fn: ast.AST, obj: str) -> Tuple[List[str], str, ast.AST]:
         for n in walk_no_nested(fn):
             if isinstance(n, ast.For) and 'reversed(range(' in U(n.iter):
+                def canon(e: ast.AST) -> str:
+                    # names are replaced by what they stand for: object attributes lose their receiver, a header local becomes the attribute it is
+                    # stored into, the local holding `<obj>._depth_range(...)` becomes DEPTH_RANGE
+                    import copy as _copy
+
+                    class _C(ast.NodeTransformer):
+                        def visit_Attribute(self, node: ast.Attribute) -> ast.AST:
+                            if dotted(node.value) in (obj, 'self'):
+                                return ast.Name(id=node.attr, ctx=ast.Load())
+                            return self.generic_visit(node)
+
+                        def visit_Name(self, node: ast.Name) -> ast.AST:
+                            defs_ = [a.value for a in walk_no_nested(fn) if isinstance(a, ast.Assign) and any(isinstance(t, ast.Name) and t.id == node.id for t in a.targets)]
+                            if defs_ and all(isinstance(d, ast.Call) and isinstance(d.func, ast.Attribute) and d.func.attr == '_depth_range' for d in defs_):
+                                return ast.Name(id='DEPTH_RANGE', ctx=ast.Load())
+                            at = reach.get(node.id, set())
+                            if len(at) == 1:
+                                return ast.Name(id=next(iter(at)), ctx=ast.Load())
+                            return node
+                    return ast.unparse(_C().visit(_copy.deepcopy(e)))
+
                 def iters(e: ast.AST) -> List[str]:
                     if isinstance(e, ast.Call) and dotted(e.func) in ('itertools.product', 'product'):
-                        return [U(a) for a in e.args]        # product(a, b) is the nest `for .. in a: for .. in b:`
-                    return [U(e)]
+                        return [canon(a) for a in e.args]        # product(a, b) is the nest `for .. in a: for .. in b:`
+                    return [canon(e)]
                 sig = iters(n.iter)
                 cur = n
                 while True:
@@ -189,11 +226,11 @@ def run(ctx: Any, prog: Program) -> None:
                 sig = [s.replace(obj + '.', '') for s in sig]
                 return sig, (key[0] if key else ''), n
         raise AnalysisError('frame loop nest not found')
-    rsig, rkey, rnode = nest(rd, 'vtf')
+    rsig, rkey, rnode = nest(rd, robj)
     wsig, wkey, wnode = nest(sv, 'self')
     ctx.check('C15.F2', rsig == wsig, vtf, wnode, f'read() iterates frames as {rsig} but save() as {wsig}', func='VTF.save', text='frame loop nest')
     ctx.check('C15.F2', rkey == wkey and rkey != '', vtf, wnode, f'_frames key order: read() `{rkey}` vs save() `{wkey}`', func='VTF.save', text='frame key order')
-    ok = any(isinstance(n, ast.Assign) and U(n) == 'depth_seq = vtf._depth_range()' for n in walk_no_nested(rd)) and any(isinstance(n, ast.Assign) and U(n).startswith('depth_seq = self._depth_range(') for n in walk_no_nested(sv))
+    ok = 'DEPTH_RANGE' in rsig and 'DEPTH_RANGE' in wsig
     ctx.shape('C15.F2', ok, vtf, sv, 'both sides must take the depth/side sequence from _depth_range()', func='VTF.save', text='depth sequence source')
     # mip sizes on read
     rsrc = U(rd)
@@ -408,8 +445,21 @@ def run(ctx: Any, prog: Program) -> None:
     # ---- F4 --------------------------------------------------------------------------------------------------
     def offset_site(fn: ast.AST) -> Optional[ast.Assign]:
         for n in walk_no_nested(fn):
-            if isinstance(n, ast.Assign) and isinstance(n.value, ast.BinOp) and re.fullmatch(r'\(y \* self\.width \+ x\) \* 4|4 \* \(y \* self\.width \+ x\)', U(n.value)):
+            if isinstance(n, ast.Assign) and isinstance(n.value, ast.BinOp) and offset_vars(n.value) is not None:
                 return n
+        return None
+
+    def offset_vars(e: ast.AST) -> Optional[Tuple[str, str]]:
+        """(x, y) of `(y * self.width + x) * 4` / `4 * (y * self.width + x)`, whatever the two locals are called"""
+        if not (isinstance(e, ast.BinOp) and isinstance(e.op, ast.Mult)):
+            return None
+        for four, inner in ((e.right, e.left), (e.left, e.right)):
+            if isinstance(four, ast.Constant) and four.value == 4 and isinstance(inner, ast.BinOp) and isinstance(inner.op, ast.Add):
+                for row, col in ((inner.left, inner.right), (inner.right, inner.left)):
+                    if isinstance(col, ast.Name) and isinstance(row, ast.BinOp) and isinstance(row.op, ast.Mult):
+                        for a, b in ((row.left, row.right), (row.right, row.left)):
+                            if isinstance(a, ast.Name) and dotted(b) == 'self.width':
+                                return col.id, a.id
         return None
 
     for mname in ('__getitem__', '__setitem__'):
@@ -431,8 +481,9 @@ def run(ctx: Any, prog: Program) -> None:
             ctx.check('C15.F4', False, vtf, guards[0], f'{qual}: the pixel buffer is indexed (or the offset returned) before the bounds guard', func=qual, text='guard precedes use')
             continue
         test = guards[0].test
-        bounds = accepted_region(test)
-        for var, dim in (('x', 'self.width'), ('y', 'self.height')):
+        xv_, yv_ = offset_vars(off.value) or ('x', 'y')
+        bounds = accepted_region(test, (xv_, yv_))
+        for var, dim in ((xv_, 'self.width'), (yv_, 'self.height')):
             lo = bounds.get((var, 'lo'))
             hi = bounds.get((var, 'hi'))
             ctx.check('C15.F4', lo == '0', vtf, guards[0], f'{qual} (for Frame.{mname}): `{U(test)}` does not reject negative {var} (a negative {var} lands on another row / indexes from the end of the buffer)',
@@ -475,7 +526,8 @@ def run(ctx: Any, prog: Program) -> None:
     if mt_ is None:
         ctx.shape('C15.F5', False, py, sd, 'bilinear mean expression not found', func='scale_down', text='bilinear = mean of four (Python)')
     else:
-        ctx.check('C15.F5', sorted(mt_[0]) == sorted(terms) and mt_[1] == 4, py, sd, f'bilinear scale_down sums {mt_[0]} and divides by {mt_[1]}: it must average the four parent samples (0, horiz, vert, both)', func='scale_down',
+        from engine.srcmatch import match_all
+        ctx.check('C15.F5', match_all(mt_[0], terms) and mt_[1] == 4, py, sd, f'bilinear scale_down sums {mt_[0]} and divides by {mt_[1]}: it must average the four parent samples (0, horiz, vert, both)', func='scale_down',
                   text='bilinear = mean of four (Python)')
     ok = 'horiz_off, per_column = (4, 2)' in ssrc and 'vert_off, per_row = (4 * per_column * width, 2 * per_column * width)' in ssrc and 'off2 = 4 * (per_row * y + per_column * x)' in ssrc
     ctx.shape('C15.F5', ok, py, sd, 'parent pixel addressing: two source pixels per destination pixel in each halved dimension', func='scale_down', text='parent addressing (Python)')
@@ -572,7 +624,7 @@ def run(ctx: Any, prog: Program) -> None:
     ctx.shape('C15.F6', ok, vtf, fr_, 'sequence header fields reach the SheetSequence constructor in (frames, clamp, duration) order', func='SheetSequence.from_resource', text='sequence constructor linkage')
 
 
-def accepted_region(test: ast.AST) -> Dict[Tuple[str, str], str]:
+def accepted_region(test: ast.AST, coords: Tuple[str, str] = ('x', 'y')) -> Dict[Tuple[str, str], str]:
     """From the *rejecting* test of a bounds guard derive, per variable, the accepted lower bound and upper bound.
 
     Recognised: `x > W or y > H` style disjunctions of single comparisons, `not (0 <= x < W and 0 <= y < H)`, and mixtures.
@@ -585,7 +637,7 @@ def accepted_region(test: ast.AST) -> Dict[Tuple[str, str], str]:
         l, op, r = dotted(cmp.left), cmp.ops[0], dotted(cmp.comparators[0])
         lc = cmp.left.value if isinstance(cmp.left, ast.Constant) else None
         rc = cmp.comparators[0].value if isinstance(cmp.comparators[0], ast.Constant) else None
-        if l in ('x', 'y'):
+        if l in coords:
             if isinstance(op, ast.Gt) and r:
                 out[(l, 'hi')] = '<=' + r
             elif isinstance(op, ast.GtE) and r:
@@ -594,7 +646,7 @@ def accepted_region(test: ast.AST) -> Dict[Tuple[str, str], str]:
                 out[(l, 'lo')] = '0'
             elif isinstance(op, ast.LtE) and rc == -1:
                 out[(l, 'lo')] = '0'
-        elif r in ('x', 'y'):
+        elif r in coords:
             if isinstance(op, ast.Lt) and l:
                 out[(r, 'hi')] = '<=' + l
             elif isinstance(op, ast.LtE) and l:
@@ -607,11 +659,11 @@ def accepted_region(test: ast.AST) -> Dict[Tuple[str, str], str]:
         for a, op, b in zip(items, cmp.ops, items[1:]):
             da, db = dotted(a), dotted(b)
             ca = a.value if isinstance(a, ast.Constant) else None
-            if db in ('x', 'y') and ca == 0 and isinstance(op, ast.LtE):
+            if db in coords and ca == 0 and isinstance(op, ast.LtE):
                 out[(db, 'lo')] = '0'
-            if da in ('x', 'y') and db and isinstance(op, ast.Lt):
+            if da in coords and db and isinstance(op, ast.Lt):
                 out[(da, 'hi')] = '<' + db
-            if da in ('x', 'y') and db and isinstance(op, ast.LtE):
+            if da in coords and db and isinstance(op, ast.LtE):
                 out[(da, 'hi')] = '<=' + db
 
     def walk_reject(t: ast.AST) -> None:
